@@ -543,7 +543,9 @@ pub fn c07(c: &Collector, g: &mut Guard) {
     let bases = gen_bases(c, &spec);
     sample_bases(c, &bases, &c07_ops);
     sweep_with_extras(c, &bases, 8, c07_ops, |c, t, local| {
-        refine_all(c, "C07", "E2.depth1", t, local);
+        if refine_all(c, "C07", "E2.depth1", t, local) {
+            then_grow(c, "C07", "E2.depth1.then-grow", t, local);
+        }
     });
     // every selector value the parser can deliver, from a thin set of base states
     let thin: Vec<Base> = bases.iter().filter(|b| b.columns >= 3).step_by(if c.thorough() { 40 } else { 160 }).cloned().collect();
@@ -630,7 +632,9 @@ pub fn c13(c: &Collector, g: &mut Guard) {
     let bases = gen_bases(c, &spec);
     sample_bases(c, &bases, &c13_ops);
     sweep_with_extras(c, &bases, 8, c13_ops, |c, t, local| {
-        refine_all(c, "C13", "E2.depth1", t, local);
+        if refine_all(c, "C13", "E2.depth1", t, local) {
+            then_grow(c, "C13", "E2.depth1.then-grow", t, local);
+        }
     });
     let lb = large_bases(c, vec![Fill::F0, Fill::F1, Fill::F2, Fill::F8]);
     sweep(c, &lb, c13_ops, |c, t, local| {
@@ -840,7 +844,9 @@ pub fn c06(c: &Collector, g: &mut Guard) {
     let bases = gen_bases(c, &spec);
     sample_bases(c, &bases, &c06_ops);
     sweep_with_extras(c, &bases, 8, c06_ops, |c, t, local| {
-        refine_all(c, "C06", "E2.depth1", t, local);
+        if refine_all(c, "C06", "E2.depth1", t, local) {
+            then_grow(c, "C06", "E2.depth1.then-grow", t, local);
+        }
     });
     let lb = large_bases(c, vec![Fill::F0, Fill::F2, Fill::F5]);
     sweep(c, &lb, c06_ops, |c, t, local| {
@@ -995,7 +1001,9 @@ pub fn c04(c: &Collector, g: &mut Guard) {
     let bases = gen_bases(c, &spec);
     sample_bases(c, &bases, &c04_ops);
     sweep(c, &bases, c04_ops, |c, t, local| {
-        refine_all(c, "C04", "E2.depth1", t, local);
+        if refine_all(c, "C04", "E2.depth1", t, local) {
+            then_grow(c, "C04", "E2.depth1.then-grow", t, local);
+        }
     });
     let lb = large_bases(c, vec![Fill::F0, Fill::F1, Fill::F8]);
     sweep(c, &lb, c04_ops, |c, t, local| {
